@@ -21,7 +21,7 @@
    total_balance_exact needs redeemed <= issued (unforgeability: every spent proof was issued) and totals below 2^64.
 *)
 From Coq Require Import ZArith List Bool.
-From Verif Require Import Model Sem InvDb InvSwap InvMint InvMelt Corollaries Queries Footprint HRel Global GlobalQuote GlobalValue GlobalErr GlobalQuery GlobalMelt GlobalKeys Cuts CutOrder Conc Races GlobalBalance GlobalLedger Reconf GlobalPoll Trace Admin AdminProofs.
+From Verif Require Import Model Sem InvDb InvSwap InvMint InvMelt Corollaries Queries Footprint HRel Global GlobalQuote GlobalValue GlobalErr GlobalQuery GlobalMelt GlobalKeys Cuts CutOrder Conc Races GlobalBalance GlobalLedger Reconf GlobalPoll Trace Admin AdminProofs CutValue CutMint CutFrames ConcValue CutHistory CutBalance.
 Import ListNotations.
 Open Scope Z_scope.
 
@@ -33,6 +33,23 @@ Theorem C16_balance_never_negative : forall (cfg : config) (h : list op),
         exists w' : world, run total_balance no_fault w = (w', Done (Ok (vS w - vR w))) /\ 0 <= vS w - vR w).
 Proof. exact @balance_never_negative. Qed.
 Print Assumptions C16_balance_never_negative.
+
+Theorem C16_balance_never_negative_with_cuts : forall (cfg : config) (h : list hitem),
+       Forall seq_cut_item h ->
+       hclients_honest cfg world0 h [] ->
+       let w := hrun cfg world0 h in
+       vR w + vP w <= vS w /\
+       (vS w < two63 ->
+        exists w' : world, run total_balance no_fault w = (w', Done (Ok (vS w - vR w))) /\ 0 <= vS w - vR w).
+Proof. exact @balance_never_negative_with_cuts. Qed.
+Print Assumptions C16_balance_never_negative_with_cuts.
+
+Theorem C16_cut_balance_history_ok : let cfg := {| c_max_mint := 0; c_max_melt := 0; c_max_balance := 0; c_mpp := false; c_feepct := 2 |} in
+       Forall seq_cut_item cut_balance_history /\
+       hclients_honest cfg world0 cut_balance_history [] /\
+       (let w := hrun cfg world0 cut_balance_history in (vS w, vR w, vP w) = (96, 96, 0)).
+Proof. exact @cut_balance_history_ok. Qed.
+Print Assumptions C16_cut_balance_history_ok.
 
 Theorem C16_step_bi : forall (cfg : config) (w : world) (o : op) (issued : list entry),
        honest_client issued o ->
